@@ -265,6 +265,17 @@ func plansFor(d corpus.Doc, lim c17Limits, r *prng.R) []simio.ReadPlan {
 			ps = append(ps, simio.ReadPlan{Name: "zero-alternating", Chunks: chunks, Rest: m})
 		}
 	}
+	// one zero-length read after the last byte and before EOF, under whole / block-sized / small deliveries
+	for _, m := range []int{n, 128, 188, 7} {
+		if m <= 0 || n/m > 20000 {
+			continue
+		}
+		var chunks []int
+		for sum := 0; sum < n; sum += m {
+			chunks = append(chunks, m)
+		}
+		ps = append(ps, simio.ReadPlan{Name: "zero-before-eof", Chunks: append(chunks, 0)})
+	}
 	// zero-length reads at fixed places
 	ps = append(ps,
 		simio.ReadPlan{Name: "zero-first", Chunks: []int{0, 0, 0}},
